@@ -145,6 +145,16 @@ func (x *Ctx) Sample(f func() string) {
 	}
 }
 
+// Describe announces the case about to be executed. On replay it is printed
+// (and flushed) before the case runs, so that a case that hangs or kills the
+// worker can still be rendered.
+func (x *Ctx) Describe(f func() string) {
+	if x.w.replay {
+		x.w.emit(map[string]interface{}{"t": "desc", "msg": f()})
+		x.w.flush()
+	}
+}
+
 // Replaying is true when a single recorded case is being replayed.
 func (x *Ctx) Replaying() bool { return x.w.replay }
 
@@ -406,7 +416,7 @@ func WorkerMain(propID, tier string, idx, n, seed int, deadlineUnix int64, after
 	var lim syscall.Rlimit
 	lim.Cur, lim.Max = 12<<30, 12<<30
 	syscall.Setrlimit(syscall.RLIMIT_AS, &lim)
-	runtime.GOMAXPROCS(2)
+	runtime.GOMAXPROCS(1)
 
 	p := Lookup(propID)
 	if p == nil {
@@ -539,4 +549,30 @@ func WorkerMain(propID, tier string, idx, n, seed int, deadlineUnix int64, after
 	}
 	w.emit(map[string]interface{}{"t": "done", "stats": w.stats, "outcomes": outs, "samples": w.samples, "perkey": w.perKey})
 	w.flush()
+}
+
+// Guard runs f and turns a panic raised below /repo code into a violation that
+// carries the rendered case. Harness panics are re-raised.
+func (x *Ctx) Guard(program, input string, f func()) (panicked bool) {
+	defer func() {
+		r := recover()
+		if r == nil {
+			return
+		}
+		switch r.(type) {
+		case skipSignal, *GeneratorError:
+			panic(r)
+		}
+		stack := string(debug.Stack())
+		site := repoFrame(stack)
+		if site == "" {
+			panic(r)
+		}
+		msg := fmt.Sprint(r)
+		panicked = true
+		x.Violation("panic", "panic:"+site+":"+PanicClass(msg), Detail{Program: program, Input: input,
+			Expected: "a value, 'no value' or an error through the return values", Observed: "panic: " + msg, Note: "top /repo frame " + site})
+	}()
+	f()
+	return false
 }
